@@ -28,5 +28,5 @@ if ! go build "${MODFLAG[@]}" -tags verif "${RACE[@]}" -o "$B/check" "./checks/$
   echo "INCONCLUSIVE property=$ID harness does not build against the tree under test"
   exit 3
 fi
-export VERIF_BUILD="$B"
+export VERIF_BUILD="$B" VERIF_SRC="$PWD" VERIF_MODFLAG="${MODFLAG[*]}"
 exec "$B/check" "$TIER" "$@"
